@@ -3,7 +3,7 @@ import numpy as np
 from hypothesis import strategies as st
 
 from pbt.props.c03 import base_sample
-from pbt.samples import call, raised, build, expand, fingerprint, fp_diff
+from pbt.samples import derived_from_used_parent, call, raised, build, expand, fingerprint, fp_diff
 
 ID = 'C06'
 LEVEL = 'exploration'
@@ -25,6 +25,9 @@ BUDGET = {
 @st.composite
 def _case(draw):
     spec, _, _ = draw(base_sample())
+    if draw(st.sampled_from([False] * 5 + [True])):
+        spec['n'] = 0                                       # an empty sample is a sample
+        spec['specials'] = []
     D = len(spec['widths'])
     container = draw(st.sampled_from(['sample', 'sample', 'sample', 'array']))
     default_sc = draw(st.integers(0, 5)) == 0
@@ -42,13 +45,15 @@ def _case(draw):
         req = [draw(st.sampled_from(sc))]
     else:
         req = draw(st.lists(st.sampled_from(sc), min_size=0, max_size=k, unique=True))       # incl. the empty request
+        if req and draw(st.sampled_from([False, False, True])):
+            req = req + [draw(st.sampled_from(req))]          # a channel may be named twice: it is converted once
     err = draw(st.sampled_from([None] * 12 + ['uncovered', 'len_mismatch']))
     uncovered = [j for j in range(D) if j not in sc]
     if err == 'uncovered' and not uncovered:
         err = 'len_mismatch'
     return dict(spec=spec, container=container, default_sc=default_sc, sc=sc, sc_spell=[draw(st.booleans()) for _ in sc],
                 curves=[[c, p] for c, p in zip(cs, ps)], form=form, req=req, req_spell=[draw(st.sampled_from(['name', 'pos', 'neg', 'name', 'pos'])) for _ in req],
-                perm_seed=draw(st.integers(0, 2 ** 16)), err=err, seq=draw(st.sampled_from(['list', 'list', 'tuple'])), via_get_transform=draw(st.integers(0, 3)) == 0,
+                perm_seed=draw(st.integers(0, 2 ** 16)), err=err, seq=draw(st.sampled_from(['list', 'list', 'tuple'])), derived=draw(st.sampled_from([None, None, None, ['slice', 1], ['slice', 2], ['list', 1]])), via_get_transform=draw(st.integers(0, 3)) == 0,
                 to_rfi_first=draw(st.booleans()))
 
 
@@ -65,7 +70,7 @@ def check(case, obs):
     import FlowCal.mef
     spec = case['spec']
     D = len(spec['widths'])
-    d = build(spec)
+    d = build(spec) if not case.get('derived') else derived_from_used_parent(spec, case['derived'][1], case['derived'][0])
     names = list(d.channels)
     is_array = case['container'] == 'array'
     if case['to_rfi_first'] and not is_array:
